@@ -24,6 +24,7 @@ RULE = (
     "cast_to every ordered superset within the universe, every non-superset must raise; get_shares_over every "
     "subset; unknown letter / name / foreign Dimension must raise; x 2-3 value assignments. Non-trivial = "
     "the array has a dimension with >= 2 items. Cases are distinct by construction."
+    " Also: arrays derived from a parent, asked for totals and shares, then edited in place, over numeric unsorted items; DimensionSet objects as requests; uint8 shares."
 )
 ASSUMPTIONS = [
     "values from finite separating alphabets (distinct powers of two: a marginal sum identifies exactly the "
